@@ -1278,8 +1278,11 @@ Section Examples.
   Example ex_constructor :
     let s := reach_from [4; 7; 4; 9; 7; 4] [Union 9 4] in
     elts s = [4; 7; 9] /\ n_elts s = 3%nat /\ ncomps s = 2%nat /\
-    (exists s', components s = Ok (s', [[4; 9]; [7]])) /\ getitem s 3 = None.
-  Proof. cbv zeta. repeat split; try (eexists; vm_compute; reflexivity); vm_compute; reflexivity. Qed.
+    (exists s', components s = Ok (s', [[7]; [4; 9]])) /\ getitem s 3 = None.
+  Proof.
+    cbv zeta. split; [vm_compute; reflexivity|]. split; [vm_compute; reflexivity|].
+    split; [vm_compute; reflexivity|]. split; [eexists; vm_compute; reflexivity|vm_compute; reflexivity].
+  Qed.
 
   (* a query that does compress a path (so "queries never change the partition" is not vacuous) *)
   Definition ex_h2 : list op := [Union 1 2; Union 3 4; Union 1 3].
